@@ -397,9 +397,9 @@ func run(tier, path string) {
 	out := vh.NewOut(path)
 	g := &gen{r: r}
 	x := &runner{g: g, out: out, r: r}
-	mult := 1
+	mult := 6
 	if tier == "thorough" {
-		mult = 30
+		mult = 60
 	}
 	// fixed corpus: the recorded known-finding inputs and regression cases first
 	for _, l := range corpus {
@@ -454,5 +454,7 @@ func run(tier, path string) {
 	}
 	x.rowsOps(2, (mult+3)/4)
 	x.rowsOps(5, (mult+3)/4)
+	x.skipOps(3, 60*mult)
+	x.skipOps(4, 60*mult)
 	out.Close(map[string]interface{}{"skipped_unsafe_alloc_inputs": x.skip})
 }
